@@ -376,6 +376,29 @@ func ruleC10Last(p *Prog, a *Anchors, r *Report) {
 	}
 	checkLast(exec, "the block node")
 	checkLast(super, "block.Super")
+	// Super renders the parent definition on every call: its successful results are AsSafeValue of a buffer
+	// rendered in this very call (or of the empty constant at the base)
+	asSafe := p.Func("AsSafeValue")
+	for _, ret := range returnsOf(super) {
+		if len(ret.Results) < 2 {
+			continue
+		}
+		key := p.FuncName(super) + ":result"
+		v := res(ret, 0)
+		c, ok := v.(*ssa.Call)
+		if !ok || c.Common().StaticCallee() != asSafe {
+			r.Bad(key, p.InstrPos(ret), "block.Super returns %s, not the (safe) rendering of the parent definition", p.VN(v))
+			continue
+		}
+		arg := stripConv(c.Common().Args[0])
+		if s, isC := constString(arg); isC && s == "" {
+			r.OK(key, p.InstrPos(ret), "empty at the base / on error")
+		} else if isRenderedBuffer(p, arg) {
+			r.OK(key, p.InstrPos(ret), "the parent definition rendered in this call")
+		} else {
+			r.Bad(key, p.InstrPos(ret), "block.Super returns %s instead of rendering the parent definition now: a remembered rendering is wrong when the block runs again with other data (e.g. in a loop)", p.VN(arg))
+		}
+	}
 }
 
 func vnOrEmpty(p *Prog, v ssa.Value) string {
